@@ -7,6 +7,10 @@
 (*            incl. the harness's case label, chunks of [t, v] samples)    *)
 (*   reqs     the deletion requests given to WithDeletionModifier          *)
 (*            (concrete matchers incl. the case matcher, closed intervals) *)
+(*   relabel  "none" or the kind of relabel modifier that ran first; then   *)
+(*            series[i].to is the label set relabelling gives the series   *)
+(*   got.log  the ChangeLogger.DeleteSeries entries; dry = the same        *)
+(*            rewrite as a dry run (ran, log, wrote)                       *)
 (*   got.err  "" or the error of WriteSeries / Flush / reading the result  *)
 (*   got.series  the series of the rewritten block, chunk by chunk          *)
 (* Judged with the property-level operator WViolations of Rewrite.tla.     *)
@@ -15,13 +19,21 @@ EXTENDS TraceLib, Rewrite
 
 Judge(e) ==
     IF e.got.err # "" THEN {"rewrite-completes"}      \* every generated request is valid: nothing allows refusing it
-    ELSE WViolations(e.series, e.reqs, e.got.series)
+    ELSE (IF e.relabel = "none"
+            THEN WViolations(e.series, e.reqs, e.got.series) \cup WLogClauses(e.series, e.got.series, e.got.log)
+            (* phase 2: a relabel modifier ran before the deletion modifier; series[i].to is the relabelled label set *)
+            ELSE WViolationsR(e.series, e.reqs, e.got.series))
+         (* phase 2: the same rewrite was also done as a dry run *)
+         \cup (IF e.dry.ran THEN WDryRunClauses(e.got.log, e.dry) ELSE {})
 
-(* Model conformance (never a verdict): the algorithm-level model predicts the rewritten series chunk by chunk. *)
+(* Model conformance (never a verdict): the algorithm-level model predicts the rewritten series chunk by chunk *)
+(* (times only when series were merged by relabelling).                                                        *)
 Drift(e) == e.got.err = "" /\
-            LET p == WAlgoOut(e.series, e.reqs)
-                norm(ss) == { <<LabelSet(ss[i].labels), ss[i].chunks>> : i \in DOMAIN ss }
-            IN norm(p) # norm(e.got.series)
+            IF e.relabel = "none"
+              THEN LET p == WAlgoOut(e.series, e.reqs)
+                       norm(ss) == { <<LabelSet(ss[i].labels), ss[i].chunks>> : i \in DOMAIN ss }
+                   IN norm(p) # norm(e.got.series)
+              ELSE WTimesOf(WAlgoOut(WAlgoMerged(e.series), e.reqs)) # WTimesOf(e.got.series)
 
 VARIABLE l
 TraceInit == l = 1
